@@ -720,9 +720,18 @@ func (z *Tokenizer) readMarkupDeclaration() TokenType {
 	if z.readDoctype() {
 		return DoctypeToken
 	}
+	if z.err != nil {
+		// A read error other than io.EOF (such as ErrBufferExceeded) cut
+		// the declaration short. What has been read so far is a bogus
+		// comment; readByte must not be called again.
+		return CommentToken
+	}
 	if z.allowCDATA && z.readCDATA() {
 		z.convertNUL = true
 		return TextToken
+	}
+	if z.err != nil {
+		return CommentToken
 	}
 	// It's a bogus comment.
 	z.readUntilCloseAngle()
